@@ -241,7 +241,7 @@ func (*hdec) Run(rc *core.RunCtx) *core.RunResult {
 		decBases[key] = base
 		res.Probes["fault_free_decodes"]++
 		// the fault-free decode is checked too (baseline configuration)
-		checkOutcome(res, out, orig, what+" (no fault)", false, condOf(p, s, false))
+		checkOutcome(res, out, orig, what+" (no fault)", false, condOf(p, s, false), p.force)
 		if len(res.Violations) > 0 {
 			res.Nontrivial = true
 			res.Sample = map[string]any{"case": what, "fault": "none"}
@@ -361,7 +361,7 @@ func (*hdec) Run(rc *core.RunCtx) *core.RunResult {
 	if planKind == 4 && errors.Is(out.err, context.Canceled) {
 		res.Probes["cancel_observed"]++
 	}
-	checkOutcome(res, out, data, what+", "+fault, planKind == 1 || planKind == 2 || planKind == 3, condOf(p, s, true))
+	checkOutcome(res, out, data, what+", "+fault, planKind == 1 || planKind == 2 || planKind == 3, condOf(p, s, true), p.force)
 	return res
 }
 
@@ -428,7 +428,7 @@ func formatOf(v *decode.Value) string {
 // sample is meant for, no force, no fault) or "stressed" (foreign format, probe
 // of a corrupted input, force, any fault). Known findings are keyed with it so
 // that a gap of some decoder on garbage does not hide a regression on clean input.
-func checkOutcome(res *core.RunResult, out *decOutcome, data []byte, what string, ioFailed bool, cond string) {
+func checkOutcome(res *core.RunResult, out *decOutcome, data []byte, what string, ioFailed bool, cond string, forced bool) {
 	if out.panicV != "" {
 		fn, class := core.PanicKey(out.panicV, out.stack)
 		if strings.HasPrefix(fn, "unknown") || strings.Contains(fn, "zzverif") {
@@ -498,7 +498,27 @@ func checkOutcome(res *core.RunResult, out *decOutcome, data []byte, what string
 				r = v.InnerRange()
 			}
 			if l, ok := lenOf(v.RootReader); ok && !ioFailed && r.Start+r.Len > l {
-				c03("range-outside-buffer", "%s has range %d..%d outside its buffer of %d bits", valuePath(v), r.Start, r.Start+r.Len, l)
+				// root cause classes that do not depend on the format: (A) a decoder seeked
+				// past the end and left a zero-length value there, which stretches the ranges
+				// of its ancestors; (B) a forced decode kept going past the end
+				leafOutside := false
+				_ = v.WalkRootPreOrder(func(w *decode.Value, _ *decode.Value, _ int, _ int) error {
+					if _, isC := w.V.(*decode.Compound); !isC && w.Range.Len > 0 && !isSynthetic(w) && (w != v || !v.IsRoot) {
+						if wl, ok := lenOf(w.RootReader); ok && w.RootReader == v.RootReader && w.Range.Start+w.Range.Len > wl {
+							leafOutside = true
+							return decode.ErrWalkStop
+						}
+					}
+					return nil
+				})
+				switch {
+				case !leafOutside:
+					res.Violate("C03", "range-outside-buffer", "zero-length-value-past-end:"+cond, what+fmt.Sprintf(": %s has range %d..%d outside its buffer of %d bits (only zero-length values lie past the end)", valuePath(v), r.Start, r.Start+r.Len, l))
+				case forced:
+					res.Violate("C03", "range-outside-buffer", "forced-decode-past-end:"+cond, what+fmt.Sprintf(": %s has range %d..%d outside its buffer of %d bits", valuePath(v), r.Start, r.Start+r.Len, l))
+				default:
+					c03("range-outside-buffer", "%s has range %d..%d outside its buffer of %d bits", valuePath(v), r.Start, r.Start+r.Len, l)
+				}
 				bad = true
 				return decode.ErrWalkStop
 			}
